@@ -531,7 +531,8 @@ def image(
     # zorder = kwargs.pop("zorder", None)
 
     for binning in h2._binnings:
-        if not binning.is_regular():
+        if not binning.is_regular() or not binning.is_consecutive():
+            # One pixel per bin, spread evenly over the range: gaps would shift the pixels off their bins
             raise ValueError(
                 "Histograms with irregular bins cannot be plotted using image method."
             )
